@@ -136,7 +136,11 @@ pub fn parse_shape(shape: &str) -> Vec<LineT> {
             None => (None, item),
         };
         let (rest, dom_override) = if let Some(r) = rest.strip_prefix('~') {
-            (r, Some(Dom::EnergyPos))
+            // strictly positive; with a `dom=` override of the unit, anywhere in that range
+            (r, Some(match crate::common::dom_override() {
+                Some((lo, hi)) => Dom::Range(lo, hi),
+                None => Dom::EnergyPos,
+            }))
         } else if let Some(r) = rest.strip_prefix('!') {
             (r, Some(Dom::EnergyLazy))
         } else {
